@@ -1,10 +1,11 @@
 // Package hlib: shared plumbing for the correspondence harnesses.
 //
 // A harness run writes into an output directory:
-//   ops.txt    one operation per line (the input to the Lean driver `svdrv <model>`)
-//   impl.txt   the canonical answer of the real implementation, line by line
-//   io.jsonl   one JSON object per violation of the property's own oracle on the implementation
-//   stats.json counts measured by this run (evaluations, distinct non-trivial cases, distribution, samples)
+//
+//	ops.txt    one operation per line (the input to the Lean driver `svdrv <model>`)
+//	impl.txt   the canonical answer of the real implementation, line by line
+//	io.jsonl   one JSON object per violation of the property's own oracle on the implementation
+//	stats.json counts measured by this run (evaluations, distinct non-trivial cases, distribution, samples)
 package hlib
 
 import (
@@ -21,6 +22,7 @@ import (
 	"strconv"
 	"strings"
 	"sync"
+	"syscall"
 )
 
 // Rand is a splitmix64 PRNG: every random choice of a run derives from one seed.
@@ -42,12 +44,12 @@ func (r *Rand) Intn(n int) int {
 	return int(r.U64() % uint64(n))
 }
 func (r *Rand) Range(lo, hi int) int { return lo + r.Intn(hi-lo+1) }
-func (r *Rand) Bool() bool            { return r.U64()&1 == 1 }
+func (r *Rand) Bool() bool           { return r.U64()&1 == 1 }
 func (r *Rand) Chance(num, den int) bool {
 	return r.Intn(den) < num
 }
 func (r *Rand) Pick(xs ...int) int { return xs[r.Intn(len(xs))] }
-func (r *Rand) Fork() *Rand         { return NewRand(r.U64()) }
+func (r *Rand) Fork() *Rand        { return NewRand(r.U64()) }
 
 // Run is the state of one harness run.
 type Run struct {
@@ -263,6 +265,7 @@ func (r *Run) runWorkers() {
 		go func(k int, args []string) {
 			defer wg.Done()
 			cmd := exec.Command(os.Args[0], args...)
+			cmd.SysProcAttr = &syscall.SysProcAttr{Pdeathsig: syscall.SIGKILL} // workers never outlive the supervisor
 			cmd.Stdout, cmd.Stderr = os.Stdout, os.Stderr
 			fails[k] = cmd.Run()
 		}(k, args)
